@@ -11,6 +11,13 @@ def joinS (sep : Bytes) : List (List Seg) → List Seg
   | [x] => x
   | x :: y :: xs => x ++ [.raw sep] ++ joinS sep (y :: xs)
 
+/-- the text of `Expr.topkSlice` (no leaf) -/
+def topkText (isTop hasLabels : Bool) (k : Nat) : Bytes :=
+  b "arraySlice(arraySort(" ++
+    (if isTop then b "x -> (-x.1, x.2" ++ (if hasLabels then b ", x.3" else []) ++ b ")," else []) ++
+    b "groupArray((par_a.value, par_a.fingerprint" ++ (if hasLabels then b ", par_a.labels" else []) ++ b "))), 1, " ++
+    natDigits k ++ b ")"
+
 mutual
 def segsExpr : Expr → List Seg
   | .raw s => [.raw (b s)]
@@ -30,7 +37,23 @@ def segsExpr : Expr → List Seg
   | .call fn args => [.raw (b fn ++ b "(")] ++ joinS (b ", ") (segsExprs args) ++ [.raw (b ")")]
   | .orderBy e d => segsExpr e ++ [.raw (match d with | .asc => b " asc" | .desc => b " desc")]
   | .sub s => segsSel s
-  | .setop k ss => [.raw (b "(")] ++ joinS (b " " ++ b k ++ b " ") (segsSels ss) ++ [.raw (b ")")]
+  | .callT fn args => [.raw (b fn ++ b "(")] ++ joinS (b ",") (segsExprs args) ++ [.raw (b ")")]
+  | .bitSet cs a => [.raw (b "groupBitOr(")] ++ joinS (b "+") (segsShiftT 0 cs) ++
+      [.raw (b ")" ++ (if a.isEmpty then [] else b " as " ++ b a))]
+  | .setOp op ss => [.raw (b "(")] ++ joinS (b " " ++ b op ++ b " ") (segsSels ss) ++ [.raw (b ")")]
+  | .arrayJoin src arr => segsExpr src ++ [.raw (b " array JOIN ")] ++ segsExpr arr ++ [.raw (b " ")]
+  | .anyIfNum k => [.raw (b "anyIf(toFloat64OrNull(val), key == "), .str k, .raw (b ")")]
+  | .distinct e => [.raw (b "distinct ")] ++ segsExpr e
+  | .mulOp x y => segsExpr x ++ [.raw (b " * ")] ++ segsExpr y
+  | .divOp x y => segsExpr x ++ [.raw (b " / ")] ++ segsExpr y
+  | .mapFilterKeys keep keys m =>
+    [.raw (b "mapFilter((k,v) -> k " ++ b (if keep then "IN" else "NOT IN") ++ b " (")] ++
+      joinS (b ",") (keys.map (fun k => [.str k])) ++ [.raw (b "), ")] ++ segsExpr m ++ [.raw (b ")")]
+  | .mapAt m key => segsExpr m ++ [.raw (b "["), .str key, .raw (b "]")]
+  | .tupleAt name i => [.raw (b name ++ b "." ++ natDigits i)]
+  | .topkSlice isTop hasLabels k => [.raw (topkText isTop hasLabels k)]
+  | .arrayJoinFrom src arr => segsExpr src ++ [.raw (b " array JOIN ")] ++ segsExpr arr ++ [.raw (b " ")]
+  | .fixedLit units scale => [.raw (b (fixedText units scale))]
 def segsSels : List Sel → List (List Seg)
   | [] => []
   | s :: ss => segsSel s :: segsSels ss
@@ -43,6 +66,9 @@ def segsParens : List Expr → List (List Seg)
 def segsShift (i : Nat) : List Expr → List (List Seg)
   | [] => []
   | o :: os => ([.raw (b "bitShiftLeft(toUInt64(")] ++ segsExpr o ++ [.raw (b "), " ++ natDigits i ++ b ")")]) :: segsShift (i + 1) os
+def segsShiftT (i : Nat) : List Expr → List (List Seg)
+  | [] => []
+  | o :: os => ([.raw (b "bitShiftLeft(toUInt64(")] ++ segsExpr o ++ [.raw (b ")," ++ natDigits i ++ b ")")]) :: segsShiftT (i + 1) os
 def segsWiths : List (Alias × Sel) → List (List Seg)
   | [] => []
   | (a, s) :: ws => ([.raw (b a.text ++ b " as (")] ++ segsSelBody s ++ [.raw (b ")")]) :: segsWiths ws
